@@ -15,6 +15,8 @@
 #include <cocls/generator.h>
 #include <cocls/generator_aggregator.h>
 #include <cocls/future.h>
+#include <cocls/with_allocator.h>
+#include <cocls/coro_storage.h>
 #undef protected
 #undef private
 
@@ -114,11 +116,15 @@ static void run_case(const vh::Case &cs, Worker &w) {
                 break;
             }
             case 1: {
-                if (op.size() != 3 || !c.gen || c.outstanding || op[1] < 0 || op[1] > 5 || (A && op[1] == 1)) { reject(x); break; }
+                if (op.size() < 3 || !c.gen || c.outstanding || op[1] < 0 || op[1] > 6 || (A && op[1] == 1)) { reject(x); break; }   // fields after the argument = pop preference, used by the model only
                 int style = (int)op[1];
                 c.argv = (int)op[2];
                 c.res_ready = false;
-                if (style == 3 || style == 4) {
+                if (style == 6) {
+                    c.on_thread = false;
+                    c.sub_access();
+                    finish_op(x, true);
+                } else if (style == 3 || style == 4) {
                     c.on_thread = false;
                     c.async_access(style);
                     finish_op(x, true);
@@ -130,7 +136,7 @@ static void run_case(const vh::Case &cs, Worker &w) {
                 break;
             }
             case 2: {
-                if (op.size() != 4 || !x.built || op[1] < 0 || (size_t)op[1] >= x.srcs.size() || !x.srcs[op[1]]->prom) { reject(x); break; }
+                if (op.size() < 4 || !x.built || op[1] < 0 || (size_t)op[1] >= x.srcs.size() || !x.srcs[op[1]]->prom) { reject(x); break; }
                 int v = (int)op[2];
                 promise<int> p = std::move(x.srcs[op[1]]->prom);
                 if (op[3] == 1) {
@@ -150,6 +156,7 @@ static void run_case(const vh::Case &cs, Worker &w) {
                 if (c.outstanding) {
                     bool settled = true;
                     if (c.on_thread) settled = w.recheck();
+                    c.sub_poll();
                     finish_op(x, settled);
                 } else {
                     emit(x, 0, Result{}, 0);
@@ -188,6 +195,7 @@ static void run_case(const vh::Case &cs, Worker &w) {
             }
         bool settled = true;
         if (c.on_thread) settled = w.recheck();
+        c.sub_poll();
         if (x.destroying) {
             if (settled) { x.destroying = false; c.outstanding = false; }
         } else if (settled && c.res_ready) {
